@@ -149,6 +149,7 @@ def run(ctx):
                     if "HashMap<std::string::String, usize>" in LF.locals[k]["s"]), None)
     ctx.stats["paths_walked"] += len(ps)
     okl, whyl, nl = True, "", 0
+    need_loop = True
 
     def shape_test(c):
         if c[0] == "variant":
@@ -164,9 +165,53 @@ def run(ctx):
         if p.end != "return":
             continue
         r = strip(p.ret)
-        if not (r[0] == "call" and r[1].endswith("make_linked_list")):
+        lme = me if LF is U else next((("param", k, LF.locals[k].get("name") or "") for k in range(1, LF.mir["arg_count"] + 1)
+                                       if LF.locals[k]["s"].replace(" ", "") == "unifiable::Unifiable"), None)
+        if lme is not None and r == lme:
+            # renamed in place: the list handed in is returned, and the only thing stored into it is, node after node
+            # along `next`, the node's own term renamed under the same map — counts, flags and links are untouched
+            nl += 1
+            need_loop = True
+            depth = 0
+            for e in p.events:
+                if e["k"] != "write" or e.get("inl"):
+                    continue
+                pl_ = e["place"]
+                node, d = (pl_[1], 0) if pl_[0] == "field" else (None, 0)
+                while node is not None and node != lme and node[0] == "field" and node[2] == "SLinkedList.next":
+                    node, d = node[1], d + 1
+                v = strip(e["value"])
+                if not (pl_[0] == "field" and pl_[2] == "SLinkedList.term" and node == lme):
+                    okl, whyl = False, "the renamer stores into %s of the list it was given" % show(pl_)[:60]
+                elif not (v[0] == "call" and v[1] == U.path and strip(v[2][0]) == pl_ and strip(v[2][1]) == lmp):
+                    okl, whyl = False, "the term of a node becomes %s, not that term renamed under the same map" % show(v)[:70]
+                elif d != depth:
+                    okl, whyl = False, "the walk stores into node %d of the list after node %d: a node is skipped or visited twice" % (d, depth - 1)
+                else:
+                    depth += 1
+            # every node the walk looked at was renamed: one store per trip round the loop
+            trips = max((sum(1 for x in p.blocks if x == h) for h, bl in list_loops), default=0)
+            if list_loops and depth != trips - 1 and not (w.truncated and depth == trips):
+                okl, whyl = False, "%d node(s) visited but %d renamed" % (trips - 1, depth)
+        elif r[0] == "agg" and r[2] == "SLinkedList":
+            # rebuilt node by node (recursively): own term and own rest renamed under the same map, own count and flag
+            nl += 1
+            need_loop = False
+            f_ = {k_: strip(v_) for k_, v_ in r[3]}
+            for fld in ("term", "next"):
+                v = f_.get(fld)
+                if not (v is not None and v[0] == "call" and v[1] == U.path and strip(v[2][0]) == ("field", me, "SLinkedList." + fld)
+                        and strip(v[2][1]) == lmp):
+                    okl, whyl = False, "the `%s` of a renamed node is %s" % (fld, show(v)[:70])
+            for fld in ("count", "tail_var"):
+                if f_.get(fld) != ("field", me, "SLinkedList." + fld):
+                    okl, whyl = False, "the `%s` of a renamed node is %s, not the node's own" % (fld, show(f_.get(fld))[:60])
             continue
-        nl += 1
+        elif not (r[0] == "call" and r[1].endswith("make_linked_list")):
+            continue
+        else:
+            nl += 1
+            need_loop = True
         for h, bl in list_loops:
             for e in p.events:
                 if e["k"] != "branch" or e.get("inl") or e["bb"] not in bl:
@@ -182,7 +227,7 @@ def run(ctx):
                 v = strip(e["args"][1])
                 if not (v[0] == "call" and v[1] == U.path and strip(v[2][1]) == lmp):
                     okl, whyl = False, "a list element %s is pushed that is not the renamed element (same map)" % show(v)[:60]
-    ctx.ob("R4", "term(SLinkedList)", okl and nl > 0 and bool(list_loops), ctx.where(LF), whyl or
+    ctx.ob("R4", "term(SLinkedList)", okl and nl > 0 and (bool(list_loops) or not need_loop), ctx.where(LF), whyl or
            "every node's term is renamed under the same map; the walk ends only where the list ends (%d paths)" % nl)
     # goal / operator / built-in renamers keep the variant and the functor
     for path, kinds in (("goal::Goal::recreate_variables", ("OperatorGoal", "ComplexGoal", "BuiltInGoal")),
